@@ -291,6 +291,7 @@ theorem endProgFinish_sh (k : Nat) (ts : List Tok5) (s : TState) (m early : Bool
   simp only [inBraces_sh, shSt_endProgs, List.isEmpty_map, shSt_pos, inMultiLineString_sh, inContinuedString_sh, shSt_line, shSt_max]
   refine ite_both _ (fun _ => rfl) (fun _ => ?_)
   refine ite_both _ (fun _ => rfl) (fun hnb => ?_)
+  refine ite_both _ (fun _ => rfl) (fun _ => ?_)
   refine ite_both _ (fun _ => ?_) (fun _ => ?_)
   · cases h : s.endProgs with
     | nil => rfl
